@@ -106,7 +106,6 @@ Hypothesis FL : fields_lt wf.
 Definition se' : sentry := spec_entry wf stab n nd.
 Hypothesis NW : node_wf n se' nd = true.
 Definition U : list nat := ups stab (n_fields nd).
-Hypothesis CA : comb_all_prev_ok stab nd = true.
 
 Definition cur : list key := map (fun f => (n, f)) (n_split nd).
 
@@ -572,12 +571,6 @@ Proof.
     assert (EKf : flat_map (ent_keysf mtab) P = flat_map (F stab) P).
     { apply flat_map_ext_in. intros x Hx. apply up_ent_keysf. apply HPu. exact Hx. }
     rewrite EP, EKf. fold cur. fold K. change (box_idx (map (key_len wf) cur)) with curbox.
-    assert (EG : negb (is_nil P) && negb (is_nil cur) && forallb (fun k => memk k (n_comb nd)) (flat_map (F stab) P) = false).
-    { pose proof CA as C. unfold comb_all_prev_ok in C. apply negb_true_iff in C. fold U in C.
-      rewrite HPa in C. unfold cur. destruct (n_split nd); [rewrite andb_false_r; reflexivity|].
-      destruct P as [|p pl] eqn:EPP; [reflexivity|].
-      destruct U as [|u us] eqn:EUU; [exfalso; apply (HPu p); left; reflexivity | exact C]. }
-    match goal with |- context [if ?c then None else _] => assert (EG' : c = false) by exact EG; rewrite EG'; clear EG' end.
     assert (Hin : (if is_nil other' then map (mkdict K) (prod2 (prods (map (ent_indf mtab) P)) curbox)
                    else map (mkdict (keys_prev n other' P ++ cur)) (prod2 (prods (map (idx_cols mtab other') P)) curbox))
                   = map (mkdict (keys_prev n other' P ++ cur)) (prod2 (prods (map (idx_cols mtab other') P)) curbox)).
